@@ -20,7 +20,7 @@ fn run_case(fam: i64, case: &[Vec<Tok>]) -> Vec<Vec<Tok>> {
         13 => case.iter().map(|l| fam_cmp::run_line(l)).collect(),
         2 => case.iter().map(|l| fam_validate::run_line(l)).collect(),
         14 => fam_glob::run_case(case),
-        1 => fam_hist::run_case(case),
+        1 | 16 => fam_hist::run_case(case),
         15 => case.iter().map(|l| fam_wire::run_line(l)).collect(),
         11 => case.iter().map(|l| fam_conc::run_trace_line(l)).collect(),
         12 => case.iter().map(|l| fam_conc::run_sched_line(l)).collect(),
